@@ -182,3 +182,48 @@ def install(clock: VClock, modules: list[str] | None = None) -> Installed:
                 inst.saved.append((mod, "datetime", cur))
                 setattr(mod, "datetime", dmod)
     return inst
+
+
+# ---------------------------------------------------------------------------- deterministic uuid4
+
+import uuid as _real_uuid
+
+UUID_MODULES = [
+    "pynenc.identifiers.invocation_id",
+    "pynenc.runner.runner_context",
+    "pynenc.runner.persistent_process_runner",
+    "pynenc.trigger.trigger_events",
+]
+
+
+class DetUUID:
+    """uuid module stand-in whose uuid4() is a counter (control flow that depends on set
+    iteration order of ids becomes reproducible together with PYTHONHASHSEED=0)."""
+
+    def __init__(self) -> None:
+        self.n = 0
+        for name in dir(_real_uuid):
+            if not name.startswith("__") and name != "uuid4":
+                setattr(self, name, getattr(_real_uuid, name))
+
+    def reset(self, start: int = 0) -> None:
+        self.n = start
+
+    def uuid4(self) -> _real_uuid.UUID:
+        self.n += 1
+        # spread the counter over the value so that string prefixes differ
+        v = (self.n * 0x9E3779B97F4A7C15) & ((1 << 64) - 1)
+        return _real_uuid.UUID(int=(v << 64) | self.n)
+
+
+def install_uuid(det: DetUUID, inst: Installed | None = None) -> Installed:
+    inst = inst or Installed()
+    for modname in UUID_MODULES:
+        try:
+            mod = importlib.import_module(modname)
+        except ImportError:
+            continue
+        if hasattr(mod, "uuid"):
+            inst.saved.append((mod, "uuid", getattr(mod, "uuid")))
+            setattr(mod, "uuid", det)
+    return inst
